@@ -514,6 +514,39 @@ def tcp_smoke(streams):
             c2.close()
             if len(buf) < 28 + 62 or buf[:2] != b'\x65\x00' or buf[28:30] != b'\x6f\x00' or buf[28 + 40] != 0xD2:
                 problems.append('a new session was not served correctly after %d hostile bytes (got %d reply bytes)' % (len(st), len(buf)))
+        # peers that connect and abort at once (RST before the server gets round to accept()), in bursts, some with a few bytes sent first:
+        # zero bytes of input must not take the listener down either
+        if not problems:
+            held = socket.create_connection(('127.0.0.1', port), timeout=3)
+            held.sendall(c02.register_frame()); held.settimeout(3); held.recv(4096)
+            for burst in range(3):
+                for k in range(40):
+                    try:
+                        c = socket.socket(); c.settimeout(1)
+                        c.setsockopt(socket.SOL_SOCKET, socket.SO_LINGER, struct.pack('ii', 1, 0))
+                        c.connect(('127.0.0.1', port))
+                        if k % 5 == 4:
+                            c.send(b'\x6f\x00\x10')
+                        c.close()
+                    except OSError:
+                        pass
+                time.sleep(0.3)
+            time.sleep(0.5)
+            if p.poll() is not None:
+                problems.append('the simulator process exited after bursts of connections that were reset at once')
+            else:
+                try:
+                    held.sendall(read); got = held.recv(4096)
+                    if got[:2] != b'\x6f\x00':
+                        problems.append('an established session was no longer served after bursts of connections that were reset at once')
+                    c2 = socket.create_connection(('127.0.0.1', port), timeout=3)
+                    c2.sendall(c02.register_frame()); c2.settimeout(3)
+                    if c2.recv(4096)[:2] != b'\x65\x00':
+                        problems.append('a new session was not served after bursts of connections that were reset at once')
+                    c2.close()
+                except OSError as e:
+                    problems.append('after bursts of connections that were reset at once: %s %s' % (type(e).__name__, e))
+            held.close()
     finally:
         p.terminate()
         try:
